@@ -1019,11 +1019,17 @@ class Analyzer:
         v = const_val(x)
         if v is not None:
             return ('const', v)
+        eb0 = self.end_expression(x)
+        if eb0:
+            return ('end', eb0)
         if x.get('k') == 'ref':
             t = self.u.ty(x.get('ty0', x['ty']))
             if t['c'] == 'int':
                 return ('int', x)
             if t['c'] == 'ptr':
+                eb = self.end_pointer(x)
+                if eb:
+                    return ('end', eb)
                 pn = self.ptr_norm(x)
                 if pn:
                     return ('p', pn)
@@ -1031,6 +1037,44 @@ class Analyzer:
         if pn and pn[0] in ('ptr', 'cur'):
             return ('p', pn)
         return ('other', x)
+
+    def end_expression(self, x):
+        """B when x is B->content + B->length (the position behind the last byte of B)"""
+        x = strip_casts(x)
+        if x.get('k') == 'bin' and x['op'] == '+':
+            for (p_, q_) in ((x['l'], x['r']), (x['r'], x['l'])):
+                bc, bl = self.buf_field(p_, 'content'), self.buf_field(q_, 'length')
+                if bc and bl and bc == bl:
+                    return bc
+        return None
+
+    def end_pointer(self, x):
+        """B when x is a local pointer whose every definition is B->content + B->length and B's length/content are not stored to
+        in this function (const unsigned char *end = buffer->content + buffer->length)"""
+        x = strip_casts(x)
+        if x.get('k') != 'ref' or x.get('dk') != 'local':
+            return None
+        cache = self.__dict__.setdefault('_end_ptrs', {})
+        if x['d'] in cache:
+            return cache[x['d']]
+        defs = [d_['init'] for d_ in self.fn.locals() if d_['d'] == x['d'] and 'init' in d_]
+        for a_ in self.fn.nodes():
+            if a_.get('k') == 'bin' and a_.get('op') in ASSIGN_OPS and strip_casts(a_['l']).get('k') == 'ref' and strip_casts(a_['l'])['d'] == x['d']:
+                defs.append(a_['r'] if a_['op'] == '=' else None)
+            if a_.get('k') == 'un' and a_.get('op') in ('pre++', 'pre--', 'post++', 'post--', '&') and \
+                    strip_casts(a_['e']).get('k') == 'ref' and strip_casts(a_['e'])['d'] == x['d']:
+                defs.append(None)
+        defs = [d_ for d_ in defs if d_ is None or not is_null_const(d_)]
+        bs = {self.end_expression(d_) if d_ is not None else None for d_ in defs}
+        out = None
+        if defs and len(bs) == 1 and None not in bs:
+            B = next(iter(bs))
+            stored = any(a_.get('k') == 'bin' and a_.get('op') in ASSIGN_OPS and
+                         (self.buf_field(a_['l'], 'length') == B or self.buf_field(a_['l'], 'content') == B) for a_ in self.fn.nodes())
+            if not stored:
+                out = B
+        cache[x['d']] = out
+        return out
 
     def set_avail(self, st, pn, lo=None, hi=None):
         kind, key, c = pn
@@ -1280,6 +1324,35 @@ class Analyzer:
                 ok = self.set_avail(st, pn, hi=-1)
             else:
                 return st
+            return st if ok else None
+        # p ? end   (end = B->content + B->length): how many bytes are left at p
+        if a[0] == 'p' and b[0] == 'end':
+            pn = a[1]
+            if op == '<':
+                ok = self.set_avail(st, pn, lo=1)
+            elif op == '<=':
+                ok = self.set_avail(st, pn, lo=0)
+            elif op == '==':
+                ok = self.set_avail(st, pn, lo=0, hi=0)
+            else:
+                iv = self.avail_of(pn, st) or TOP
+                ok = True
+                if iv[0] == 0:
+                    ok = self.set_avail(st, pn, lo=1)      # not at the end, and not behind it either
+            return st if ok else None
+        if a[0] == 'end' and b[0] == 'p':
+            pn = b[1]
+            if op == '<':       # end < p
+                ok = self.set_avail(st, pn, hi=-1)
+            elif op == '<=':    # end <= p
+                ok = self.set_avail(st, pn, hi=0)
+            elif op == '==':
+                ok = self.set_avail(st, pn, lo=0, hi=0)
+            else:
+                iv = self.avail_of(pn, st) or TOP
+                ok = True
+                if iv[0] == 0:
+                    ok = self.set_avail(st, pn, lo=1)
             return st if ok else None
         # p ? q
         if a[0] == 'p' and b[0] == 'p':
